@@ -5,8 +5,8 @@ Model driver for C06. Line protocol (fields separated by one space; "-" = empty)
       pop    u:t,u:t,…            initial table (uuid and modified_at as naturals; t = 0 is "null")
       sched  k:op,op;k:op;…       ops applied just before request k is served
              op = m<u>:<t> (modify) | a<u>:<t> (add) | d<u> (delete)
-      cap    server-side cap on the page length (0 = none);  fail = request number answered with an
-             error;  cbfail = callback invocation (0-based) that returns an error
+      cap    server-side cap on the page length (0 = none);  fail = request number(s) answered with an
+             error (`k[kind]` or a fault sequence `k[kind]+k[kind]+…`);  cbfail = callback invocation (0-based) that returns an error
       → the request/callback trace joined by '|', then '=' and the outcome
   pagecut <pageSize> <pop> <k>   request k of a scan over a static table answered with its body cut to n
       bytes, for every n < len → ok=<cuts after which the scan returned nil> (the model: none, "ok=-")
@@ -72,8 +72,7 @@ def optNat (s : String) : Option (Option Nat) := if s == "-" then some none else
 
 /-- `<k>` (500), `<k>n` (transport error), `<k>j` (truncated JSON), `<k>e|b|h|l` (status 200, body cut at
 byte 0 / 1 / half / last), `<k>c<n>` (cut to n bytes): the kind is irrelevant to the model -/
-def optFail (s : String) : Option (Option Nat) :=
-  if s == "-" then some none else
+def oneFail (s : String) : Option Nat :=
   let cs := s.toList
   let ds := cs.takeWhile Char.isDigit
   let rest := cs.dropWhile Char.isDigit
@@ -81,8 +80,14 @@ def optFail (s : String) : Option (Option Nat) :=
     | 'c' :: r => !r.isEmpty && r.all Char.isDigit
     | _ => false
   if rest == [] || (rest.length == 1 && "njebhl".toList.contains (rest.headD ' ')) || cutN then
-    (nat? (String.ofList ds)).map some
+    nat? (String.ofList ds)
   else none
+
+/-- `-`, one failure, or a fault sequence `<k>[kind]+<k>[kind]+…` (distinct request numbers) -/
+def optFail (s : String) : Option (List Nat) :=
+  if s == "-" then some [] else do
+    let ks ← (s.splitOn "+").mapM oneFail
+    if ks.eraseDups.length == ks.length then pure ks else none
 
 def showFilt : Filt → String
   | .all => "-"
@@ -113,7 +118,7 @@ def doPage (ps cap pop sched fail cbfail : String) : String :=
     let limit := effLimit pageSize
     let eff := if cap = 0 then limit else min limit cap
     let env := envOf db0 sch
-    let failF := fun k => fl == some k
+    let failF := fun k => fl.contains k
     -- the table stops changing after the schedule, so this fuel always suffices
     -- (C06_paging_progress); more tables than that cannot be seen by the loop
     let fuel := sch.length + 3 * (maxRows db0 sch + sch.length) + 8
